@@ -6,10 +6,11 @@
    lines that int() accepts, record lines the record parsers accept), so the theorems cover bundled files as
    well as what molli writes; C10_written_* instantiate them with the xyz writer model (Gen tables, tie T).
    The correspondence shards (tie H) evaluate exactly these definitions against the implementation. *)
-From Coq Require Import List Bool ZArith NArith String.
+From Coq Require Import List Bool ZArith NArith String Lia.
 From Molli Require Import Common.ParseStr Common.ParseStrFacts Model.Parse Model.XyzText Proofs.Parse Proofs.XyzText.
 From Molli Require Import Gen.XyzElements.
 Import ListNotations.
+Local Open Scope list_scope.
 
 Definition names := conv_names element_names.
 Definition syms := conv_syms element_symbols.
@@ -41,10 +42,11 @@ Definition f22_text : list str := map s2l
    "@<TRIPOS>MOLECULE"; "three"; "3 2 0 0 0"; "SMALL"; "NO_CHARGES"; "";
    "@<TRIPOS>ATOM"; "1 C 0.0 0.0 0.0 C 1 U"; "2 C 1.0 0.0 0.0 C 1 U"; "3 C 2.0 0.0 0.0 C 1 U"]%string.
 Theorem C10_counts_refuted_before_repair :
-  (exists bs b, read_mol2 false f22_text = Ok bs /\ nth_error bs 1 = Some b /\
-                mh_nbonds (mk_hdr b) = Some 2%Z /\ List.length (mk_bonds b) = 1%nat) /\
-  (exists e, read_mol2 true f22_text = Err e).
-Proof. split; [do 2 eexists; repeat split; vm_compute; reflexivity | eexists; vm_compute; reflexivity]. Qed.
+  match read_mol2 false f22_text with
+  | Ok [_; b] => mh_nbonds (mk_hdr b) = Some 2%Z /\ List.length (mk_bonds b) = 1%nat
+  | _ => False
+  end /\ match read_mol2 true f22_text with Err _ => True | Ok _ => False end.
+Proof. vm_compute. repeat split. Qed.
 
 (* ---------------------------------------------------------------- truncation at every line boundary *)
 Theorem C10_truncate_lines_xyz : forall P zero_ok vocab bs ls ms,
@@ -65,6 +67,30 @@ Proof. exact read_xyz_wf. Qed.
 Theorem C10_wf_reads_mol2 : forall bs ls, m2wf_text bs ls -> bs <> [] -> read_mol2 true ls = Ok bs.
 Proof. exact read_mol2_wf. Qed.
 
+(* the mol2 hypotheses are satisfiable: the text molli writes for a 2-atom molecule, twice *)
+Definition ex_mol2 : list str := map s2l
+  ["# Produced with molli package"; "@<TRIPOS>MOLECULE"; "two"; "2 1 0 0 0"; "SMALL"; "USER_CHARGES"; "";
+   "@<TRIPOS>ATOM"; "     1 C       0.000000     0.000000     0.000000 C          1 UNL1 0.000";
+   "     2 C       1.000000     0.000000     0.000000 C          1 UNL1 0.000"; "@<TRIPOS>BOND"; "     1      1      2   1"]%string.
+Example C10_mol2_wf_nonvacuous : exists bs, m2wf_text bs (ex_mol2 ++ ex_mol2) /\ List.length bs = 2%nat.
+Proof.
+  assert (H : exists b, m2wf b ex_mol2).
+  { eexists. unfold ex_mol2. cbn [map].
+    eapply (m2wf_intro [_] _ _ _ _ _ _ _ [_; _] _ [_]).
+    - constructor; [right; eexists; vm_compute; reflexivity|constructor].
+    - do 2 eexists. repeat split; vm_compute; reflexivity.
+    - vm_compute. reflexivity.
+    - split; vm_compute; reflexivity.
+    - do 2 eexists. repeat split; vm_compute; reflexivity.
+    - instantiate (1 := [_; _]). reflexivity.
+    - constructor; [split; [reflexivity|vm_compute; lia]|constructor; [split; [reflexivity|vm_compute; lia]|constructor]].
+    - do 2 eexists. repeat split; vm_compute; reflexivity.
+    - instantiate (1 := [_]). reflexivity.
+    - constructor; [split; [reflexivity|vm_compute; lia]|constructor]. }
+  destruct H as [b Hb]. exists [b; b]. split; [|reflexivity].
+  rewrite <- (app_nil_r (ex_mol2 ++ ex_mol2)), <- app_assoc. repeat constructor; assumption.
+Qed.
+
 (* ---------------------------------------------------------------- one line deleted / duplicated (xyz) *)
 (* comment_ok: the comment (name) line is not itself an integer -- see C10_comment_hypothesis_needed *)
 Theorem C10_delete_line_xyz : forall zero_ok vocab bs ls i, xwf_text comment_ok bs ls -> (i < List.length ls)%nat ->
@@ -79,8 +105,8 @@ Print Assumptions C10_dup_line_xyz.
    [2; a1; a2; a3], a DIFFERENT complete molecule -- no reader can notice (format limit, like finding 36) *)
 Example C10_comment_hypothesis_needed :
   let t := map s2l ["3"; "2"; "C 0 0 0"; "H 1 0 0"; "H 2 0 0"]%string in
-  exists ms, load_xyz names (del_nth 0 t) = Ok ms /\ List.length ms = 1%nat.
-Proof. eexists. split; vm_compute; reflexivity. Qed.
+  match load_xyz names (del_nth 0 t) with Ok [m] => m_natoms m = 2%Z | _ => False end.
+Proof. vm_compute. reflexivity. Qed.
 
 (* ---------------------------------------------------------------- texts written by molli (tie T for the vocabulary) *)
 Theorem C10_vocabulary : vocab_ok names syms = true.
@@ -99,8 +125,8 @@ Example C10_written_nonvacuous :
   let gs := [mk_wgeom (s2l "w 1") [mk_watom 8 (true, 0%N) (false, 1234567%N) (true, 99999999999%N);
                                    mk_watom 17 (false, 5%N) (false, 0%N) (false, 1%N)];
              mk_wgeom (s2l "second") []] in
-  Forall name_ok gs /\ exists ls, write_xyz syms gs = Some ls /\ List.length ls = 6%nat.
-Proof. split; [repeat constructor|eexists; split; vm_compute; reflexivity]. Qed.
+  Forall name_ok gs /\ match write_xyz syms gs with Some ls => List.length ls = 6%nat | None => False end.
+Proof. split; [repeat (constructor; [vm_compute; reflexivity|]); constructor|vm_compute; reflexivity]. Qed.
 
 (* ---------------------------------------------------------------- the last record cut anywhere (xyz) *)
 (* the last line replaced by ANY line l' (in particular by each of its prefixes): an error, or the same molecules
@@ -132,9 +158,11 @@ Proof. exact xyz_atom_cut. Qed.
 Print Assumptions C10_last_token_only.
 Example C10_known_last_token_witness :
   let last := s2l "C     1.000000     2.000000     3.456700" in
-  exists a a', xyz_atom last = Some a /\ xyz_atom (firstn 35 last) = Some a' /\ xa_z a = FNum false 3456700 (-6) /\
-               xa_z a' = FNum false 34 (-1).
-Proof. do 2 eexists. repeat split; vm_compute; reflexivity. Qed.
+  match xyz_atom last, xyz_atom (firstn 35 last) with
+  | Some a, Some a' => xa_z a = FNum false 3456700 (-6) /\ xa_z a' = FNum false 34 (-1)
+  | _, _ => False
+  end.
+Proof. vm_compute. split; reflexivity. Qed.
 
 (* ---------------------------------------------------------------- partial: deletion / duplication for mol2
    C10_delete_line_mol2 / C10_dup_line_mol2 (NOT proved as theorems):
